@@ -1,3 +1,17 @@
+/- C16: decoded messages and encoded bytes never alias each other's memory.  The interpreter is value-semantic; aliasing is
+   expressed in the explicit memory model `FinProto.Alias`: reader bodies are micro-programs (make / readFull / toString / sub /
+   ret); every program without the `view` instruction returns a reference into a region allocated during the call, so no
+   later mutation of the buffer's backing array changes what it denotes; `view` provably aliases.  The facts obligations
+   (no unsafe/reflect import, no reader takes buf.Bytes()/buf.Next()) tie the Go readers to the copying programs. -/
 import FinProto.Obl.Side
+import FinProto.Props.AliasProofs
 namespace FinProto.Obl
+open FinProto FinProto.Alias
+
+theorem C16_readString_copying (len : Nat) : (progReadString len).copying = true := progReadString_copying len
+theorem C16_readFixed_copying (n a b : Nat) : (progReadFixedStringTrimPadding n a b).copying = true :=
+  progReadFixedStringTrimPadding_copying n a b
+theorem C16_readBasic_copying (w : Nat) : (progReadBasicType w).copying = true := progReadBasicType_copying w
+theorem C16_no_unrecognised_statement : Gen.env.noOpaque = true := gen_noOpaque
+
 end FinProto.Obl
